@@ -90,26 +90,31 @@ def isAbstractKind : Kind → Bool
   | .union => true
   | _ => false
 
+/-- prepend the helper `__typename` unless a field named `__typename` occurs below -/
+def withTypename (ss : List Sel) : List Sel × List String :=
+  if containsField "__typename" ss then (ss, []) else (typenameField :: ss, ["__typename"])
+
+/-- prepend the helper `id` unless a field named `id` occurs below -/
+def withId (p : List Sel × List String) : List Sel × List String :=
+  if containsField "id" p.1 then p else (idField :: p.1, p.2 ++ ["id"])
+
+/-- the definition of `typename` if it is an interface or a union -/
+def abstractDef? (c : PCtx) (typename : String) : Option TypeDef :=
+  match c.schema.type? typename with
+  | some t => if isAbstractKind t.kind then some t else none
+  | none => none
+
 /-- `addScrubFieldsToSelectionSet`: prepend the helper fields the executor will need -/
 def addScrubFields (c : PCtx) (ss : List Sel) (typename : String) : G (List Sel × List String) :=
-  let abstract? := match c.schema.type? typename with
-    | some t => if isAbstractKind t.kind then some t else none
-    | none => none
-  match abstract? with
+  match abstractDef? c typename with
   | some t =>
-    let (ss1, added1) := if containsField "__typename" ss then (ss, []) else (typenameField :: ss, ["__typename"])
     match c.schema.possibleOf typename with
     | [] => .error (.panic "index out of range [0] with length 0 (possible types of an abstract type)")
     | pt0 :: _ =>
-      let isNode := (c.tum.isNode? pt0).getD false && (t.field? "id").isSome
-      if !isNode then .ok (ss1, added1)
-      else if containsField "id" ss1 then .ok (ss1, added1)
-      else .ok (idField :: ss1, added1 ++ ["id"])
+      if (c.tum.isNode? pt0).getD false && (t.field? "id").isSome then .ok (withId (withTypename ss))
+      else .ok (withTypename ss)
   | none =>
-    let isNode := (c.tum.isNode? typename).getD false
-    if !isNode then .ok (ss, [])
-    else if containsField "id" ss then .ok (ss, [])
-    else .ok (idField :: ss, ["id"])
+    if (c.tum.isNode? typename).getD false then .ok (withId (ss, [])) else .ok (ss, [])
 
 /-- `setMissingScrubFieldsForFieldSelectionSet` -/
 def setMissing (c : PCtx) (ip : List String) (alias typename : String) (sf : Scrub) (added : List String) : Scrub :=
